@@ -25,6 +25,11 @@ Spellings of the content path (harness/impl/c20path.py, Lean: Torf.Model.FileSiz
 resolution, theorems C20_path_*): `link/..`, `a//b`, `a/./b`, trailing slashes, relative to a working
 directory reached through a link, … with copies of the content at the real and at the lexical location
 (each intact / damaged / absent); the size check must judge the tree the OS resolves the spelling to.
+
+Worlds and typed lengths (harness/impl/c20env.py, Lean: Torf.Model.FileSizeEnv, theorems C20_env_*,
+C20_depends_only_on_stat, C20_depends_only_on_value): every case is run in the plain world and in a world with
+the same stat answers in which nothing can be opened (no free descriptor, uid 65534 on mode-000 files, injected
+open / access / listdir / read faults, FIFOs); lengths are int, float, bool (and invalid objects).
 """
 import errno
 import itertools
@@ -37,6 +42,7 @@ from harness.gen import layouts
 from harness.impl import content
 from harness.impl import c20hist
 from harness.impl import c20path
+from harness.impl import c20env
 
 K = 16384
 
@@ -74,7 +80,16 @@ RULE = ('case = (layout, per-file disk state, path shape, pieces kind, callback)
         'the tree at the real location: %d) x (state of the tree at the lexical location) x %d catalogued spellings '
         '(link/.., a//b, a/./b, trailing slashes, relative to a cwd reached through a link, top through a link, ...) '
         '+ random walks through the linked tree, x {no callback, passive, cancel at each call}, str and pathlib; '
-        'non-trivial = the spelling is not the plain path; distinct = (scenario, spelling, form, callback)'
+        'non-trivial = the spelling is not the plain path; distinct = (scenario, spelling, form, callback).  Worlds and '
+        'typed lengths: every case is run in the plain world and in a world with the same stat answers in which nothing '
+        'can be opened (no free descriptor: RLIMIT_NOFILE; uid 65534 on mode-000 files in unlistable directories; '
+        'open / os.open / access / listdir / scandir failing by injection; reads failing after a successful open; '
+        'FIFOs in place of files, every call under an interval timer); exhaustive: (int | float | bool lengths) x '
+        '(ok, missing, +1, -1, directory) for one and two files, invalid lengths (fractional, negative, nan/inf, '
+        'non-numbers), sizes up to 2**60 on sparse files, (5 worlds) x every assignment of (ok, missing, +1, -1, '
+        'directory, FIFO, symlink) to one and two files; + structured random layouts x types x states x worlds, x '
+        '{no callback, passive, cancel at each call}; non-trivial = a world other than the plain one or a length that '
+        'is not an int; distinct = (case, world, callback)'
         % (len(c20hist.EX_EDITS), len(c20path.STATES), len(c20path.CATALOGUE)))
 
 
@@ -679,6 +694,103 @@ def evaluate_spellings(ctx, drv, scs):
                                 'impl_nocb': sp['runs'][0]['impl']['res'], 'verify': sp['verify']}, limit=11)
 
 
+# --------------------------------------------------------------------------------------------
+# worlds (descriptor limits, permissions, open() faults, FIFOs) and typed lengths
+
+def evaluate_envs(ctx, drv, cases):
+    reqs, owner = [], []
+    for ci, c in enumerate(cases):
+        for cb in c20env.callbacks_for(c):
+            reqs.append(c20env.driver_request(c, cb))
+            owner.append(ci)
+    replies = drv.run(reqs)
+    per_case = {}
+    for ci, r in zip(owner, replies):
+        per_case.setdefault(ci, []).append(r)
+    results = common.pmap(c20env.run_chunk, common.split(cases, common.NPROC * 8))
+    ci = -1
+    for chunk in results:
+        for (c, obs) in chunk:
+            ci += 1
+            case = {'envcase': c20env.public(c)}
+            if 'harness_exc' in obs:
+                ctx.machinery_error('harness could not build/run the world case: ' + obs['harness_exc'], case)
+                continue
+            if obs.get('skipped_after_hangs'):
+                ctx.dist['world-case-with-a-FIFO-skipped-after-three-calls-that-did-not-return'] += 1
+                continue
+            reps = per_case[ci]
+            plan = [{k: e[k] for k in e if k in ('kind', 'n')} for e in c20env.planned(c)]
+            typed = any(f['len']['t'] != 'int' for f in c['files'])
+            plain_runs = obs['worlds'][0]['runs']
+            nocb_true = None
+            for w in obs['worlds']:
+                wname = w['env']
+                ctx.dist['world:' + (wname if w['effective'] == wname else wname + '(not root: plain)')] += 1
+                # the harness's own stat, asked inside the world, must be the plan (directories: kind only)
+                meas = [dict(m) for m in w['measured']]
+                want = [({'kind': 'dir'} if e['kind'] == 'dir' else e) for e in plan]
+                if meas != want:
+                    ctx.machinery_error('world case: the stat answers measured inside the world differ from the plan',
+                                        dict(case, world=wname, measured=meas, planned=want))
+                    continue
+                for ri, (run_, rep) in enumerate(zip(w['runs'], reps)):
+                    cb = run_['cb']
+                    sub = dict(case, world=wname, cb=cb)
+                    ctx.case(key=c20env.key(c, wname, cb), nontrivial=(wname != 'plain' or typed),
+                             kind=f"{c['shape']}/{wname}/{'nocb' if cb is None else 'passive' if cb == [] else 'cancel'}")
+                    if wname != 'plain' and rep['probeDiffers']:
+                        ctx.dist['world-runs-on-which-a-readability-probe-would-differ'] += 1
+                    if rep['intfmtDiffers']:
+                        ctx.dist['runs-on-which-an-integer-only-conversion-of-the-length-would-differ'] += 1
+                    if not rep['hyp']:
+                        ctx.machinery_error('generator produced a layout outside the hypothesis WF', sub)
+                        continue
+                    if not rep['modelEqSpec']:
+                        ctx.machinery_error('world case: model != spec although C20_env_refines is proved', sub)
+                        continue
+                    impl = {'res': run_['res'], 'calls': run_['calls']}
+                    spec = rep['spec']
+                    if cb is None and wname == 'plain':
+                        nocb_true = run_['res'] == {'ok': True}
+                    ok = impl == spec
+                    if ok and 'raised' in run_['res'] and run_['res']['raised'][0] in ('read', 'verifyFileSize', 'verifyIsDir'):
+                        first = 0 if rep['singleAtDir'] else next((i for i, e in enumerate(rep['errs']) if e is not None), None)
+                        if run_['which'] != first:
+                            ok = False
+                            impl = dict(impl, which=run_['which'])
+                            spec = dict(spec, which=first)
+                    if not ok:
+                        ctx.violation('verify_filesize() deviates from the specification evaluated on the stat answers of the '
+                                      'world and the values of the recorded lengths (result / raised error / callback trace)',
+                                      sub, spec, impl, finding_matchers=MATCHERS)
+                        continue
+                    if wname != 'plain' and ri < len(plain_runs):
+                        pl_ = plain_runs[ri]
+                        if {'res': pl_['res'], 'calls': pl_['calls']} != impl:
+                            ctx.violation('verify_filesize() gives different verdicts in two worlds that agree on every stat '
+                                          'answer', sub, {'res': pl_['res'], 'calls': pl_['calls']}, impl,
+                                          finding_matchers=MATCHERS)
+                            continue
+                    if impl != rep['model'] and 'which' not in impl:
+                        ctx.corr_break('c20.env', sub, rep['model'], impl)
+            if not obs.get('metainfo_unchanged', True):
+                ctx.violation('verify_filesize() changed the metainfo', case, 'unchanged', 'changed', finding_matchers=MATCHERS)
+            if 'verify' in obs:
+                ctx.dist['world-xverify'] += 1
+                if obs['verify'] is True:
+                    ctx.dist['world-xverify-true'] += 1
+                    if nocb_true is not True:
+                        ctx.violation('verify() succeeds on a path on which verify_filesize() does not (typed lengths)',
+                                      dict(case, world='plain', cb=None), {'verify_filesize': True},
+                                      {'verify': True, 'verify_filesize': plain_runs[0]['res']}, finding_matchers=MATCHERS)
+            if len(obs['worlds']) > 1 and len(obs['worlds'][1]['runs']) > 1 and typed and len(c['files']) >= 2 \
+                    and any(e is not None for e in reps[0]['errs']):
+                ctx.sample({'world_case': c20env.public(c), 'world': obs['worlds'][1]['env'],
+                            'passive_callback': obs['worlds'][1]['runs'][1]['calls'][:4],
+                            'nocallback': obs['worlds'][1]['runs'][0]['res']}, limit=9)
+
+
 def run(ctx, drv):
     ctx.notes['rule'] = RULE
     ctx.notes['assumptions'] = [
@@ -704,8 +816,18 @@ def run(ctx, drv):
         'specification on what os.stat finds through the spelling); the empty string and spellings that only resolve after '
         'pathlib has dropped a trailing slash or dot behind a regular file are not judged; reported paths are compared by '
         'what they denote (same file / same realpath), never as text; os.path / pathlib string functions are trusted',
+        'worlds: the stat answers of a world are planned by the generator and measured by the harness with os.stat inside '
+        'the very same world (a difference is a machinery error); a directory standing where a file is listed has to be '
+        'listed to be totalled, so it is not generated in the no-descriptor world and stays readable in the others; a '
+        'FIFO is, for stat, a non-directory of size 0; "does not return" = no return within 2 s of a call that takes '
+        'about a millisecond; lowering RLIMIT_NOFILE, changing the effective uid and replacing functions of os / io / '
+        'builtins happen only in forked workers and only while the call runs; without a root harness the uid world is '
+        'the plain one (counted)',
+        'typed lengths: int, bool and float objects are stored in the metainfo as generated; a float stands for its exact '
+        'value (all generated floats are exactly representable); error objects are compared by the == value of '
+        'actual_size / expected_size, not by their type; piece counts come from the values',
     ]
-    corpus, hcorpus, scorpus = [], [], []
+    corpus, hcorpus, scorpus, ecorpus = [], [], [], []
     cdir = os.path.join(common.CORPUS_DIR, 'C20')
     if os.path.isdir(cdir):
         import json
@@ -716,12 +838,15 @@ def run(ctx, drv):
                     hcorpus.append(dict(cc['history'], shape='corpus-history'))
                 elif 'spelling' in cc:
                     scorpus.append(dict(cc['spelling'], shape='corpus-spelling'))
+                elif 'envcase' in cc:
+                    ecorpus.append(dict(cc['envcase'], shape='corpus-world'))
                 else:
                     corpus.append(dict(cc, shape='corpus'))
     cases = corpus + gen_cases(ctx)
     evaluate(ctx, drv, cases)
     evaluate_histories(ctx, drv, hcorpus + c20hist.gen_histories(ctx))
     evaluate_spellings(ctx, drv, scorpus + c20path.gen_scenarios(ctx))
+    evaluate_envs(ctx, drv, ecorpus + c20env.gen_cases(ctx))
     ctx.exhaustive = False
 
 
@@ -729,6 +854,7 @@ def search(ctx, drv):
     evaluate(ctx, drv, gen_cases(ctx, scale=3.0))
     evaluate_histories(ctx, drv, c20hist.gen_histories(ctx, scale=3.0))
     evaluate_spellings(ctx, drv, c20path.gen_scenarios(ctx, scale=3.0))
+    evaluate_envs(ctx, drv, c20env.gen_cases(ctx, scale=3.0))
 
 
 def replay(ctx, drv, rp):
@@ -737,6 +863,8 @@ def replay(ctx, drv, rp):
         evaluate_histories(ctx, drv, [dict(c['history'], shape=c['history'].get('shape', 'replay'))])
     elif 'spelling' in c:
         evaluate_spellings(ctx, drv, [dict(c['spelling'])])
+    elif 'envcase' in c:
+        evaluate_envs(ctx, drv, [dict(c['envcase'])])
     else:
         c.pop('cb', None)
         c.setdefault('shape', 'replay')
